@@ -185,6 +185,12 @@ def memo_key_defect(o: Outcome) -> Optional[Tuple[str, str]]:
         kids, vids = set(), set()
         _unit_ids_in(st, key, kids)
         direct = {st.ufind(x.uid) for x in (key.items if isinstance(key, TupleV) else [key]) if isinstance(x, UnitV)}
+        # a unit's symbol identifies the unit (symbols are unique in the directory, C15): keying by it is keying by the unit
+        import re as _re
+        for x in (key.items if isinstance(key, TupleV) else [key]):
+            m_ = _re.fullmatch(r"symbol\((.+)\)", getattr(x, "tag", "") or "") if isinstance(x, StrV) else None
+            if m_ and m_.group(1) in st.uparent:
+                direct.add(st.ufind(m_.group(1)))
         _unit_ids_in(st, val, vids)
         params = set()
         for a in list(o.args) + list(o.kwargs.values()):
